@@ -34,6 +34,21 @@ def find_entry(facts):
             if any(t.startswith('http::request::Request<') for t in tys) and any(t.endswith('::ServerState') for t in tys) and any('SocketAddr' in t for t in tys) \
                     and 'Infallible' in b.local_ty(0):
                 out.append((b, {i - 1: t for i, t in zip((1, 2, 3), tys)}))
+    if not out:
+        # the same entry as an implementation of the HTTP service trait: `<T as Service<Request<..>>>::call(&mut self, req)` on a type
+        # that holds the server state and the peer address, returning the (boxed) future of the request
+        for b in facts.bodies.values():
+            if b.crate != 'datacake_rpc' or b.kind != 'method' or b.d['promoted'] or b.argc != 2 or not b.impl or not b.name.endswith('::call'):
+                continue
+            if 'Service<http::request::Request<' not in b.impl or not b.local_ty(2).startswith('http::request::Request<') or 'Infallible' not in b.local_ty(0):
+                continue
+            self_ty = ty_head(b.local_ty(1).lstrip('&').replace('mut ', '').strip())
+            a = facts.adts.get(self_ty)
+            if a is None or a['kind'] != 'struct':
+                continue
+            ftys = [f['ty'] for f in a['variants'][0]['fields']]
+            if any(t.endswith('::ServerState') for t in ftys) and any('SocketAddr' in t for t in ftys):
+                out.append((b, {'service': self_ty, 'fields': ftys}))
     return out
 
 
@@ -47,6 +62,8 @@ def hook_factory(plan):
             r = registry_abs.hook(interp, name, args, t, body)
         if r is not None:
             return r
+        if name in ('alloc::boxed::Box::pin', 'alloc::boxed::Box::new', 'core::pin::Pin::new', 'core::pin::Pin::new_unchecked', 'alloc::boxed::Box::into_pin') and args:
+            return args[0]
         if name == 'http::request::Request::into_parts':
             parts = ('adt', 'http::request::Parts', 0, [Cell(('opaque', 'method')), Cell(('uri', 'p')), Cell(('opaque', 'version')), Cell(('headers',)),
                                                         Cell(('opaque', 'extensions')), Cell(UNIT)])
@@ -145,6 +162,22 @@ def check_dispatch(ctx, facts, rule, cfg_label=''):
                     world = ServerWorld(facts, plan)
                     if roles is not None:
                         state = roles.make({'S': {'h:p'}} if registered else {'T': {'h:other'}}, {'h:p': 'H'} if registered else {'h:other': 'X'})
+                    if 'service' in ups:
+                        # the service object: its fields by type
+                        selfv = ('adt', ups['service'], 0, [Cell(state if ty.endswith('::ServerState') else ('opaque', 'remote-addr' if 'SocketAddr' in ty else 'field'))
+                                                             for ty in ups['fields']])
+                        it = Interp(facts, Order({}), opaque_call=world.call)
+                        it.poll_hook = world.poll
+                        it.unknown_call = actor_abs.lenient_unknown
+                        it.choices = list(choices)
+                        fut = it.deref_all(it.run_body(entry, [('ref', Cell(selfv)), ('request',)]))
+                        while fut is not None and fut[0] == 'adt' and fut[3] and (fut[1].endswith('::Pin') or fut[1].endswith('::Box')):
+                            fut = it.deref_all(fut[3][0].v)
+                        if fut is None or fut[0] != 'closure':
+                            raise Unmodelled('the service call does not return its future')
+                        pr = it.deref_all(it.poll_coroutine(('ref', Cell(fut)), 0))
+                        r = pr[3][0].v if pr and pr[0] == 'adt' and pr[3] else None
+                        return it.oracle_log, (list(world.trace), r)
                     upv = {}
                     for i, ty in ups.items():
                         if ty.startswith('http::request::Request<'):
